@@ -87,8 +87,10 @@ impl fmt::Display for Expression {
     fn fmt(&self, f: &mut fmt::Formatter<'_>) -> fmt::Result {
         let mut syms = default_symbol_table();
         let expr = self.convert(&mut syms);
-        let s = expr.print(&syms).unwrap();
-        write!(f, "{}", s)
+        // an operation list that does not form one expression (possible in a
+        // token received from the network) is printed like the symbol table
+        // printer does, instead of panicking
+        write!(f, "{}", syms.print_expression(&expr))
     }
 }
 
